@@ -311,6 +311,12 @@ func (s c41srv) config() *Config {
 		SessionTicketsDisabled:   !s.ticket,
 		SessionCacheDisabled:     true,
 	}
+	// a fixed ticket key (as bfe_server loads it from session_ticket_key.data): two
+	// configurations of one case share it, like a rule reload or two rules of one server do
+	for i := range cfg.SessionTicketKey {
+		cfg.SessionTicketKey[i] = byte(0x41 + i)
+	}
+	copy(cfg.SessionTicketKeyName[:], "c41-ticket-key--")
 	if s.ec {
 		cfg.Certificates = []Certificate{c41ecCert}
 	} else {
@@ -1045,6 +1051,48 @@ func (x *c41ctx) runRaw(fam string, s c41srv, c c41hcli) {
 	x.record(id, s, 1, o)
 }
 
+// runStd2 / runRaw2: two-connection histories in which the server's policy CHANGES between the
+// connection that issues the ticket (configuration s1) and the one that presents it (s2, same
+// ticket key): a tls_rule_conf reload, or the same client reaching another rule of the server.
+// Every connection is judged against the configuration in force for THAT connection; a refused
+// resumption that falls back to a full handshake is fine.
+func (x *c41ctx) runStd2(fam string, s1, s2 c41srv, c c41cli) {
+	id := fam + "|" + s1.String() + "|then|" + s2.String() + "|" + c.String()
+	if !x.next(id) {
+		return
+	}
+	c.cache = true
+	ccfg := c.config(s1.menu())
+	o := c41handshake(s1.config(), c41stdClient(ccfg))
+	x.record(id, s1, 1, o)
+	if o.timeout {
+		return
+	}
+	o2 := c41handshake(s2.config(), c41stdClient(ccfg))
+	x.record(id, s2, 2, o2)
+	if o2.sDone && o2.sResumed {
+		x.r.Add("sum_resumed_under_changed_policy", 1)
+	}
+}
+
+func (x *c41ctx) runRaw2(fam string, s1, s2 c41srv, c c41hcli) {
+	id := fam + "|" + s1.String() + "|then|" + s2.String() + "|" + c.String()
+	if !x.next(id) {
+		return
+	}
+	var sess *ClientSessionState
+	o := c41handshake(s1.config(), c41rawClient(c.hello(s1.menu(), false), nil, &sess))
+	x.record(id, s1, 1, o)
+	if o.timeout {
+		return
+	}
+	o2 := c41handshake(s2.config(), c41rawClient(c.hello(s2.menu(), true), sess, nil))
+	x.record(id, s2, 2, o2)
+	if o2.sDone && o2.sResumed {
+		x.r.Add("sum_resumed_under_changed_policy", 1)
+	}
+}
+
 // ---------------------------------------------------------------------------------------------
 // families
 
@@ -1157,6 +1205,110 @@ func TestVerifC41(t *testing.T) {
 	}
 	if stop() {
 		return
+	}
+
+	// Family R — policy change between ticket issue and ticket presentation (two connections,
+	// same ticket key, same client): R1 the rule's grade and Chacha20 flag (every ordered pair of
+	// grades, so C -> A/A+/B with RC4 negotiated first and still offered, and the reverse);
+	// R2 the version range (every ordered pair of ranges); R3 the enabled suite list (every
+	// ordered pair of subsets; quick: of the 4-suite sub-menu); R4 (thorough) grade and range
+	// together. Clients: crypto/tls with a session cache and the hand-marshalled ticket client.
+	rc4 := 1<<3 | 1<<5
+	type rcli struct {
+		std  bool
+		vers uint16
+		css  int
+	}
+	var rclis []rcli
+	for _, css := range []int{allRSA, rc4, rc4 | 1<<2 | 1<<4, 1<<1 | 1<<2 | 1<<5} {
+		rclis = append(rclis, rcli{true, stdtls.VersionTLS10, css}, rcli{true, stdtls.VersionTLS12, css},
+			rcli{false, VersionSSL30, css}, rcli{false, VersionTLS10, css}, rcli{false, VersionTLS12, css})
+	}
+	runR := func(fam string, s1, s2 c41srv, c rcli) {
+		s1.ticket, s2.ticket = true, true
+		if c.std {
+			x.runStd2(fam, s1, s2, c41cli{max: c.vers, suites: c.css, alpn: h2http, sni: 1})
+		} else {
+			x.runRaw2(fam, s1, s2, c41hcli{vers: c.vers, suites: c.css, alpn: h2http, sni: 1, resume: 2})
+		}
+	}
+	for _, g1 := range c41grades {
+		for _, g2 := range c41grades {
+			for _, cha := range [][2]bool{{false, false}, {true, false}, {false, true}} {
+				for _, rev := range []bool{false, true} { // reversed: the server prefers RC4
+					for _, c := range rclis {
+						s1, s2 := base, base
+						s1.grade, s2.grade, s1.chacha, s2.chacha, s1.rev, s2.rev = g1, g2, cha[0], cha[1], rev, rev
+						s1.poodle, s2.poodle = !rev, !rev
+						runR("R1", s1, s2, c)
+					}
+				}
+			}
+		}
+	}
+	if stop() {
+		return
+	}
+	for _, rg1 := range c41ranges() {
+		for _, rg2 := range c41ranges() {
+			for _, c := range rclis[:10] { // suite classes all / RC4 only
+				s1, s2 := base, base
+				s1.min, s1.max, s2.min, s2.max = rg1[0], rg1[1], rg2[0], rg2[1]
+				runR("R2", s1, s2, c)
+			}
+		}
+	}
+	if stop() {
+		return
+	}
+	{
+		var ms []int
+		if thorough {
+			for m := 0; m <= allRSA; m++ {
+				ms = append(ms, m)
+			}
+		} else {
+			for m := 0; m < 16; m++ { // subsets of {ECDHE-CBC, ECDHE-RC4, RSA-CBC, RSA-RC4}
+				ms = append(ms, (m&3)<<2|(m>>2)<<4)
+			}
+		}
+		for _, m1 := range ms {
+			if m1 == 0 {
+				continue
+			}
+			for _, m2 := range append([]int{-1}, ms...) {
+				for _, c := range []rcli{{true, stdtls.VersionTLS12, allRSA}, {false, VersionTLS10, allRSA}, {true, stdtls.VersionTLS11, rc4 | 1<<2 | 1<<4}} {
+					for _, pref := range []int{0, 1} {
+						s1, s2 := base, base
+						s1.suites, s2.suites, s1.pref, s2.pref = m1, m2, pref, pref
+						runR("R3", s1, s2, c)
+					}
+				}
+			}
+			if stop() {
+				return
+			}
+		}
+	}
+	if thorough {
+		rgs := [][2]uint16{{0, 0}, {0, VersionTLS10}, {VersionTLS11, 0}, {VersionTLS12, VersionTLS12}}
+		for _, g1 := range c41grades {
+			for _, g2 := range c41grades {
+				for _, rg1 := range rgs {
+					for _, rg2 := range rgs {
+						for _, c := range rclis {
+							s1, s2 := base, base
+							s1.grade, s2.grade, s1.rev, s2.rev = g1, g2, true, true
+							s1.min, s1.max, s2.min, s2.max = rg1[0], rg1[1], rg2[0], rg2[1]
+							runR("R4", s1, s2, c)
+						}
+					}
+				}
+			}
+		}
+		if stop() {
+			return
+		}
 	}
 
 	// Family F — TLS_FALLBACK_SCSV (hand-marshalled): every valid (min,max) x hello version
